@@ -421,6 +421,13 @@ func (r *ref) returned(rc *rcv, result string) {
 		if !good {
 			r.fails = append(r.fails, fmt.Sprintf("wrong-blame: r%d failed with %s, conflicting senders under that id: %v", rc.rid, result, r.conflict[rc.key]))
 		}
+	case result == "bufferfull":
+		// not voided: fewer undelivered messages than the bound were ever outstanding
+		r.fails = append(r.fails, fmt.Sprintf("bufferfull-below-bound: r%d failed with buffer-full although only %d (< %d) messages were undelivered", rc.rid, r.total, bufferBound))
+	case result == "closed" || result == "reader":
+		if !r.closed {
+			r.fails = append(r.fails, fmt.Sprintf("spurious-failure: r%d failed with %s although the router was neither closed nor did its delivery fail", rc.rid, result))
+		}
 	case result == "cancelled":
 		if !rc.canc {
 			r.fails = append(r.fails, fmt.Sprintf("spurious-cancel: r%d reported cancellation, its context was never cancelled", rc.rid))
@@ -985,22 +992,45 @@ func failKey(f string) string {
 	return "prop"
 }
 
-// shrink removes operations while the schedule still fails in the same way.
+// shrink removes operations (chunks first, then single ones) while the schedule still fails in
+// the same way; bounded by a run budget and a time limit so that huge schedules stay cheap.
 func shrink(t *testing.T, a vh.Args, sc sched, stillFails func(sched) bool) sched {
-	for pass := 0; pass < 3; pass++ {
-		changed := false
-		for i := len(sc.ops) - 1; i >= 0; i-- {
-			if len(sc.ops) <= 1 {
-				break
+	budget := 400 // candidate runs
+	work := 600000 // operations executed over all candidate runs
+	spend := func(n int) bool {
+		if budget <= 0 || work <= 0 {
+			return false
+		}
+		budget--
+		work -= n
+		return true
+	}
+	for chunk := len(sc.ops) / 2; chunk >= 1; chunk /= 2 {
+		for i := len(sc.ops) - chunk; i >= 0; i -= chunk {
+			if len(sc.ops)-chunk < 1 || i+chunk > len(sc.ops) {
+				continue
+			}
+			if !spend(len(sc.ops)) {
+				return sc
+			}
+			cand := sched{sc.quorum, append(append([]op{}, sc.ops[:i]...), sc.ops[i+chunk:]...)}
+			if stillFails(cand) {
+				sc = cand
+			}
+		}
+	}
+	for pass := 0; pass < 2; pass++ {
+		for i := len(sc.ops) - 1; i >= 0 && len(sc.ops) > 1; i-- {
+			if i >= len(sc.ops) {
+				continue
+			}
+			if !spend(len(sc.ops)) {
+				return sc
 			}
 			cand := sched{sc.quorum, append(append([]op{}, sc.ops[:i]...), sc.ops[i+1:]...)}
 			if stillFails(cand) {
 				sc = cand
-				changed = true
 			}
-		}
-		if !changed {
-			break
 		}
 	}
 	return sc
@@ -1590,8 +1620,16 @@ func body(t *testing.T, a vh.Args) {
 		return
 	}
 	if a.Tier == "racechild" {
-		cases := genRace(a.Seed, 300)
-		evalRace(a, res, cases, []int{1, 16})
+		// race-detector build: racing scenarios plus a sample of the serialised schedules and echo
+		// runs (the detector works from happens-before, so serialised runs expose races as well)
+		evalRace(a, res, genRace(a.Seed, 300), []int{1, 16})
+		hooksSupported = probeHooks(t)
+		var cases []gcase
+		cases = append(cases, genWindow()...)
+		cases = append(cases, genRandom(a.Seed, 400, false)...)
+		cases = append(cases, genTwoReceivers(a.Seed, 100)...)
+		evalSerial(t, a, res, cases)
+		evalEcho(t, a, res, genEcho(a.Seed, 40))
 		return
 	}
 
